@@ -59,7 +59,14 @@ def write_image(case, path: Path):
     from flipjump.utils.exceptions import FlipJumpException
     try:
         wr = Writer(path, case['w'], FJMVersion(case.get('version', 1)), lzma_preset=case.get('lzma_preset', 0))
-        for seg in case['segments']:
+        segs = list(case['segments'])
+        order = case.get('file_order', 'asc')      # the order of the segment table in the FILE (the image is the same)
+        if order == 'desc':
+            segs.reverse()
+        elif isinstance(order, str) and order.startswith('shuffle:'):
+            import random as _random
+            _random.Random(int(order.split(':')[1])).shuffle(segs)
+        for seg in segs:
             data = list(seg['data'])
             ds = wr.add_data(data)
             wr.add_segment(seg['start'], seg['length'], ds, len(data))
@@ -91,7 +98,9 @@ def fault_classes():
             pass
 
         _fault_classes.update(io=SimDeviceFailure, eof=IOReadOnEOF, broken=BrokenIOUsed, foreign=ForeignError,
-                              value=ValueError, kbd=KeyboardInterrupt, baseexc=SimBaseExc)
+                              value=ValueError, kbd=KeyboardInterrupt, baseexc=SimBaseExc,
+                              epipe=BrokenPipeError, timeout=TimeoutError, oserr=OSError, runtime=RuntimeError,
+                              memerr=MemoryError, stopiter=StopIteration)
     return _fault_classes
 
 
